@@ -67,10 +67,15 @@ fn pragma_text_mentioning_pragma_is_verbatim() {
     if n == 1 { assert!(r.as_bytes()[7] == b); }
 }
 ''')
+_CURSOR = dict(file='crates/oq3_lexer/src/cursor.rs', fn=None, whole_file=True, harness='cursor_primitives_agree_with_the_model', unwind=6,
+               bound='every string of at most 3 chars, each ASCII (NUL included) or a 2-byte UTF-8 char; one bump, then eat_while up to an ASCII stop char',
+               claim='cursor.rs (copied whole): Cursor::{new,is_eof,first,second,bump,prev,pos_within_token,reset_pos_within_token,eat_while} agree with the rest / tok model the LEX unit trusts (chars decoded by hand, byte positions)',
+               body="#[cfg(kani)]\nmod oq3_cursor_harness {\n    use super::*;\n    #[kani::proof]\n    #[kani::unwind(6)]\n    fn cursor_primitives_agree_with_the_model() {\n        let two: [bool; 3] = kani::any();\n        let n: usize = kani::any();\n        kani::assume(n <= 3);\n        let mut buf = [0u8; 6];\n        let mut len = 0usize;\n        let mut chars = ['\\0'; 3];\n        let mut k = 0;\n        while k < 3 {\n            if k < n {\n                if two[k] {\n                    let b0: u8 = kani::any();\n                    let b1: u8 = kani::any();\n                    kani::assume(0xC2 <= b0 && b0 <= 0xDF && 0x80 <= b1 && b1 <= 0xBF);\n                    buf[len] = b0;\n                    buf[len + 1] = b1;\n                    chars[k] = char::from_u32((((b0 & 0x1F) as u32) << 6) | ((b1 & 0x3F) as u32)).unwrap();\n                    len += 2;\n                } else {\n                    let b: u8 = kani::any();\n                    kani::assume(b < 128);\n                    buf[len] = b;\n                    chars[k] = b as char;\n                    len += 1;\n                }\n            }\n            k += 1;\n        }\n        let s = unsafe { std::str::from_utf8_unchecked(&buf[..len]) };\n        let mut c = Cursor::new(s);\n        assert!(c.is_eof() == (n == 0));\n        assert!(c.first() == if n >= 1 { chars[0] } else { '\\0' });\n        assert!(c.second() == if n >= 2 { chars[1] } else { '\\0' });\n        assert!(c.pos_within_token() == 0);\n        let b = c.bump();\n        assert!(b == if n >= 1 { Some(chars[0]) } else { None });\n        assert!(c.first() == if n >= 2 { chars[1] } else { '\\0' });\n        assert!(c.prev() == if cfg!(debug_assertions) && n >= 1 { chars[0] } else { '\\0' });\n        let w0 = if n >= 1 { if two[0] { 2 } else { 1 } } else { 0 };\n        assert!(c.pos_within_token() as usize == w0);\n        let stop: u8 = kani::any();\n        kani::assume(0 < stop && stop < 128);\n        c.eat_while(|ch| ch != stop as char);\n        let mut expect = w0;\n        let mut stopped = false;\n        let mut j = 1;\n        while j < 3 {\n            if j < n && !stopped {\n                if chars[j] == stop as char { stopped = true; } else { expect += if two[j] { 2 } else { 1 }; }\n            }\n            j += 1;\n        }\n        assert!(c.pos_within_token() as usize == expect);\n        assert!(c.is_eof() == !stopped);\n        c.reset_pos_within_token();\n        assert!(c.pos_within_token() == 0);\n    }\n}\n")
 EXTRACTED = {
     'C03': [_PRAGMA_TEXT],
     'C06': [_PRAGMA_TEXT, _PRAGMA_TEXT2],
-    'C01': [dict(file='crates/oq3_syntax/src/validation.rs', fn='unquote', harness='unquote_never_panics', unwind=6,
+    'C14': [_CURSOR], 'C15': [_CURSOR], 'C11': [_CURSOR],
+    'C01': [_CURSOR, dict(file='crates/oq3_syntax/src/validation.rs', fn='unquote', harness='unquote_never_panics', unwind=6,
                  bound='every text of at most 3 ASCII bytes, prefix_len <= 2, end delimiter `"` or `\'`',
                  claim='validation.rs::unquote (nested in validate_literal) returns normally (no slice / char-boundary panic)',
                  body='''#[cfg(kani)]
@@ -113,7 +118,13 @@ def run_extracted(prop, scratch):
     status = 0
     viol = []
     for h in EXTRACTED.get(prop, []):
-        text = _extract_fn(os.path.join(REPO, h['file']), h['fn'])
+        if h.get('whole_file'):
+            try:
+                text = open(os.path.join(REPO, h['file'])).read()
+            except OSError:
+                text = None
+        else:
+            text = _extract_fn(os.path.join(REPO, h['file']), h['fn'])
         if text is None:
             out.append(dict(harness=h['harness'], verdict='undecided', detail='function %s not found in %s' % (h['fn'], h['file'])))
             status = 2
@@ -130,7 +141,7 @@ def run_extracted(prop, scratch):
             o = 'TIMEOUT'
         if 'VERIFICATION:- SUCCESSFUL' in o:
             out.append(dict(harness=h['harness'], verdict='verified-bounded', bounded=True, backend='kani/cbmc', bound=h['bound'], claim=h['claim'],
-                            extraction='function text copied verbatim from %s on this run' % h['file'] + (' (inside a stand-in impl: %s)' % ' '.join(h['prefix'].split()) if h.get('prefix') else '')))
+                            extraction=('%s copied verbatim from %s on this run' % ('the whole file' if h.get('whole_file') else 'function text', h['file'])) + (' (inside a stand-in impl: %s)' % ' '.join(h['prefix'].split()) if h.get('prefix') else '')))
         elif 'VERIFICATION:- FAILED' in o:
             failed = re.findall(r'Status: FAILURE\s*\n\s*- Description: "([^"]*)"', o)
             path = os.path.join(os.environ.get('OQ3_REPLAY_DIR', os.path.join(VERIF, 'replays')), prop, 'kani_%s.json' % h['harness'])
